@@ -308,10 +308,11 @@ class ResourceMap:
         Internal implementation is recursive, hence extremely deep
         nested resource maps are not ideal.
         """
-        # Set valid identifiers as slots
+        # Set valid identifiers as slots. Names with two leading
+        # underscores would be mangled by the class body, keep them out
         slots_resources = tuple(filter(
-            lambda x: x.isidentifier(), chain(self.handles.keys(),
-                                              self.maps.keys())))
+            lambda x: x.isidentifier() and not x.startswith('__'),
+            chain(self.handles.keys(), self.maps.keys())))
 
         # Don't add a dict if all the resources can be encoded into
         # slots
